@@ -65,9 +65,9 @@ Proof.
 Qed.
 
 (* ---- directories of the bucket ---- *)
-Lemma dedupN_In l x : In x (dedupN l) <-> In x l.
+Lemma dedupN_In l : forall x, In x (dedupN l) <-> In x l.
 Proof.
-  unfold dedupN. induction l as [|y r IH]; simpl; [tauto|].
+  unfold dedupN. induction l as [|y r IH]; intros x; simpl; [tauto|].
   destruct (memN y (fold_right _ [] r)) eqn:E.
   - rewrite IH. apply memN_In in E. apply IH in E. split; [auto|]. intros [H|H]; [subst; exact E|exact H].
   - simpl. rewrite IH. tauto.
@@ -85,7 +85,7 @@ Definition dirs_known (L : locals) (b : bucket) : Prop :=
 
 Lemma block_dirs_known L b d : dirs_known L b -> In d (block_dirs b) -> linfo_of L d <> None.
 Proof.
-  intros Hk Hin. unfold block_dirs in Hin. apply dedupN_In in Hin.
+  intros Hk Hin. unfold block_dirs in Hin. apply (proj1 (dedupN_In _ _)) in Hin.
   apply in_map_iff in Hin as [[[d' f] o] [E Hin]]. simpl in E. subst d'.
   apply (Hk d f). apply (in_map fst) in Hin. simpl in Hin.
   apply (keys_get key obj key_eqb key_ltb key_eqb_spec) in Hin as [v Hv]. unfold bget. congruence.
@@ -126,7 +126,7 @@ Lemma checker_gets_nofault L lbl b : forall dirs n acc,
     /\ (NoDup dirs -> NoDup ds).
 Proof.
   induction dirs as [|d r IH]; intros n acc Hk Hp; simpl.
-  - exists n, []. simpl. rewrite app_nil_r. repeat split; [intros d []|intros d []|constructor].
+  - exists n, []. simpl. rewrite app_nil_r. split; [reflexivity|]. split; [intros x []|intros _; constructor].
   - assert (Hkr : forall d', In d' r -> linfo_of L d' <> None) by (intros d' Hd'; apply Hk; right; exact Hd').
     destruct (linfo_of L d) as [i|] eqn:Hi; [|exfalso; apply (Hk d); [left; reflexivity|exact Hi]].
     destruct (bget b (d, FMeta)) as [o|] eqn:Hg.
@@ -205,11 +205,11 @@ Qed.
 (* ---- the loop of Sync without fault ---- *)
 Lemma sync_loop_nofault U L c has lbl :
   wf_univ U -> c_fault c = NoFault -> c_lbl c = Some lbl -> ranges_disjoint L ->
-  forall blocks b n ops up cids ck res,
+  forall blocks b n ops up cids ck ords res,
   binv U b -> dirs_known L b -> ck_inv L b ck ->
-  sync_loop std_upload U L c has blocks b n ops up 0 cids ck = Some res -> r_ret res = true.
+  sync_loop std_upload U L c has blocks b n ops up 0 cids ck ords = Some res -> r_ret res = true.
 Proof.
-  intros Hwf Hf Hl Hd. induction blocks as [|id r IH]; intros b n ops up cids ck res Hb Hk Hck H; simpl in H.
+  intros Hwf Hf Hl Hd. induction blocks as [|id r IH]; intros b n ops up cids ck ords res Hb Hk Hck H; simpl in H.
   - rewrite Hf in H. simpl in H. inversion H; subst. reflexivity.
   - destruct (linfo_of L id) as [i|] eqn:Hli; [|discriminate].
     destruct (ublock U id) as [bl|] eqn:Hu; [|discriminate].
@@ -218,10 +218,10 @@ Proof.
     destruct (negb (N.leb (l_level i) 1) && negb (c_uc c)); [eapply IH; eauto|].
     rewrite Hf in H. rewrite tick_nofault in H.
     destruct (bhas b (id, FMeta)) eqn:Hhas; [eapply IH; eauto|].
-    destruct (gate_nofault L c b (S n) ck id i lbl (eq_trans Hf eq_refl) Hl Hd Hk (binv_metas_parse U b Hb) Hck Hli Hhas)
+    destruct (gate_nofault L c b (S n) ck id i lbl Hf Hl Hd Hk (binv_metas_parse U b Hb) Hck Hli Hhas)
       as [n1 [ck' [Hg Hck']]].
-    rewrite Hf in Hg. rewrite Hg in H. rewrite Hl in H.
-    destruct (upload_ops std_upload U id (map fst (b_chunks bl)) (hd 0%N cids) lbl) as [l|] eqn:Hup; [|discriminate].
+    rewrite Hg in H. rewrite Hl in H. rewrite andb_false_r in H.
+    destruct (upload_ops std_upload U id _ (hd 0%N cids) lbl) as [l|] eqn:Hup; [|discriminate].
     rewrite run_ups_nofault in H.
     pose proof (upload_ops_shape U id _ _ lbl l Hup) as [Hups _].
     eapply IH; [| | |exact H].
@@ -232,10 +232,10 @@ Proof.
 Qed.
 
 Lemma sync_nofault U L c mf b res lbl :
-  wf_univ U -> c_fault c = NoFault -> c_lbl c = Some lbl -> ranges_disjoint L ->
+  wf_univ U -> c_fault c = NoFault -> c_lbl c = Some lbl -> c_corrupt c = [] -> ranges_disjoint L ->
   binv U b -> dirs_known L b -> sync U L c mf b = Some res -> r_ret res = true.
 Proof.
-  intros Hwf Hf Hl Hd Hb Hk H. unfold sync in H. rewrite upload_phases_std in H.
+  intros Hwf Hf Hl Hcc Hd Hb Hk H. unfold sync in H. rewrite upload_phases_std in H. rewrite Hcc in H. simpl in H.
   eapply (sync_loop_nofault U L c _ lbl Hwf Hf Hl Hd); [exact Hb|exact Hk| |exact H].
   intros m Hm. discriminate.
 Qed.
@@ -270,10 +270,10 @@ Qed.
 Lemma sync_can_succeed_after_crash U L cs c st res lbl :
   wf_univ_b U = true -> ranges_disjoint_b L = true ->
   after_syncs U L ([], None) cs = Some st ->
-  c_fault c = NoFault -> c_lbl c = Some lbl ->
+  c_fault c = NoFault -> c_lbl c = Some lbl -> c_corrupt c = [] ->
   sync U L c (snd st) (fst st) = Some res -> r_ret res = true.
 Proof.
-  intros Hwf Hd Ha Hf Hl Hs. apply wf_univ_b_spec in Hwf. apply ranges_disjoint_b_spec in Hd.
+  intros Hwf Hd Ha Hf Hl Hcc Hs. apply wf_univ_b_spec in Hwf. apply ranges_disjoint_b_spec in Hd.
   destruct (after_syncs_good2 U L cs _ _ Hwf (good2_empty U L) Ha) as [[Hb _] Hk].
   eapply sync_nofault; eauto.
 Qed.
@@ -299,9 +299,10 @@ Proof.
   rewrite Hpost. apply andb_true_iff. split.
   - unfold wedge_ok. destruct (c_fault c) eqn:Hf; simpl; try reflexivity.
     destruct ret; simpl; [reflexivity|].
+    destruct (c_corrupt c) as [|x xs] eqn:Hcc; [|reflexivity]. simpl.
     destruct (c_lbl c) as [lbl|] eqn:Hl; [|reflexivity].
     destruct Hg as [[Hb _] Hk].
-    rewrite (sync_nofault U L c (snd st) (fst st) res lbl Hwf Hf Hl Hd Hb Hk Hsy) in Hret. discriminate.
+    rewrite (sync_nofault U L c (snd st) (fst st) res lbl Hwf Hf Hl Hcc Hd Hb Hk Hsy) in Hret. discriminate.
   - apply (IH (bapply_ops (fst st) (r_ops res), match r_meta res with Some l => Some l | None => snd st end)); try assumption.
     apply (sync_keeps_good2 U L c st res Hwf Hg Hsy).
 Qed.
